@@ -26,8 +26,7 @@
    Environment events: SetOffer (the session's DHCPv4IPOffer changes), FailWrites k (the connection fails
    its next k WriteTo calls).
 
-   Residue (not in the model): h.closed is read without a lock; the probe branch of ProcessPacket reads the
-   session's offer and replies in one step; real time (see the fairness hypothesis below). *)
+   Residue (not in the model): real time (see the fairness hypothesis below). *)
 From PV Require Import Base.Prelude Base.Slice.
 Open Scope N_scope.
 
@@ -85,7 +84,7 @@ Record state := mkState {
   closed : bool;               (* h.closed / closeChan closed *)
   offers : list (mac * ip4);   (* session view: MACEntry.IP4Offer when it Is4() *)
   failn : nat;                 (* the connection fails its next failn writes *)
-  rxq : list frame;            (* spoof replies decided by ProcessPacket calls in flight, not yet written *)
+  rxq : list frame;            (* spoof replies / probe rejects decided by ProcessPacket calls in flight, not yet written *)
   scans : list scan            (* every Scan() call ever started *)
 }.
 
@@ -274,7 +273,9 @@ Definition wr2 (s : state) (f : frame) : state * list frame := fst (wr s f).
 
 (* ProcessPacket after the PayloadID / IsValid tests (h.closed is read without a lock: residue).
    Request branch: "Lock; _, hunting := huntList[srcMAC]; Unlock; if hunting && DstIP == router { Reply }" — the
-   reply is decided here and written by RxReply. *)
+   reply is decided here and written by RxReply.  Probe branch: "offer := session.DHCPv4IPOffer(srcMAC)" (under
+   the session's lock) "; if offer.Is4() && offer != DstIP && HomeLAN4.Contains(DstIP) && DstIP != router { Reply }":
+   the probe-reject is decided on that reading of the offer table and written by RxReply as well. *)
 Definition rx_arp (c : cfg) (s : state) (p : arp_pkt) : state * list frame :=
   if closed s then (s, [])
   else
@@ -286,7 +287,7 @@ Definition rx_arp (c : cfg) (s : state) (p : arp_pkt) : state * list frame :=
       match offer_of (psmac p) (offers s) with
       | Some offer =>
           if negb (offer =? ptip p) && (in_lan c (ptip p) && negb (ptip p =? router_ip c))
-          then wr2 s (probe_reject c p) else (s, [])
+          then (set_rxq s (rxq s ++ [probe_reject c p]), []) else (s, [])
       | None => (s, [])
       end
   | _ => (s, [])
